@@ -57,11 +57,14 @@ type PKI struct {
 	SignNoKU, EncNoKU gmtls.Certificate // key usage unsuitable
 	Sign2, Enc2       gmtls.Certificate // a second genuine identity (other keys, same name)
 	// intermediate CAs and client certificates issued by them (chains of two)
-	SubCA        *gx509.Certificate // SM2 intermediate under CA
-	ClientSub    gmtls.Certificate  // SM2 client certificate under SubCA; Certificate = [leaf, SubCA]
-	StdSubCA     *gx509.Certificate // ECDSA intermediate under StdCA (parsed with the library's x509)
-	StdClientSub gmtls.Certificate  // ECDSA client certificate under StdSubCA; Certificate = [leaf, StdSubCA]
-	StdClientRSA gmtls.Certificate  // RSA client certificate under StdCA
+	SubCA           *gx509.Certificate // SM2 intermediate under CA
+	ClientSub       gmtls.Certificate  // SM2 client certificate under SubCA; Certificate = [leaf, SubCA]
+	StdSubCA        *gx509.Certificate // ECDSA intermediate under StdCA (parsed with the library's x509)
+	StdClientSub    gmtls.Certificate  // ECDSA client certificate under StdSubCA; Certificate = [leaf, StdSubCA]
+	StdClientRSA    gmtls.Certificate  // RSA client certificate under StdCA
+	SignSub, EncSub gmtls.Certificate  // SM2 server pair issued by SubCA; Certificate = [leaf, SubCA]
+	ECDSASub        gmtls.Certificate  // ECDSA server certificate issued by StdSubCA; Certificate = [leaf, StdSubCA]
+	SubCAKey        *sm2.PrivateKey
 	// standard TLS identities
 	StdCA              *stdx509.Certificate
 	StdCAKey           *ecdsa.PrivateKey
@@ -172,6 +175,11 @@ func Get() *PKI {
 			p.SubCA = mustParse(subDER)
 			p.ClientSub = mk(sm2Cert("client under sub CA", 35, &leafKey.PublicKey, p.SubCA, subKey, cliT), leafKey)
 			p.ClientSub.Certificate = append(p.ClientSub.Certificate, subDER)
+			p.SubCAKey = subKey
+			p.SignSub = mk(sm2Cert("server sign under sub CA", 36, &p.SignKey.PublicKey, p.SubCA, subKey, signT), p.SignKey)
+			p.SignSub.Certificate = append(p.SignSub.Certificate, subDER)
+			p.EncSub = mk(sm2Cert("server enc under sub CA", 37, &p.EncKey.PublicKey, p.SubCA, subKey, encT), p.EncKey)
+			p.EncSub.Certificate = append(p.EncSub.Certificate, subDER)
 		}
 		p.ClientUntrusted = mk(sm2Cert("client", 31, &p.ClientKey.PublicKey, p.CA2, p.CA2Key, cliT), p.ClientKey)
 		p.ClientExpired = mk(sm2Cert("client", 32, &p.ClientKey.PublicKey, p.CA, p.CAKey, func(t *gx509.Certificate) {
@@ -228,6 +236,14 @@ func Get() *PKI {
 			}
 			p.StdClientSub = mk(lder, lk)
 			p.StdClientSub.Certificate = append(p.StdClientSub.Certificate, subDER)
+			st2 := &stdx509.Certificate{SerialNumber: big.NewInt(113), Subject: pkix.Name{CommonName: "std server under sub CA"}, NotBefore: time.Date(2020, 1, 1, 0, 0, 0, 0, time.UTC), NotAfter: time.Date(2030, 1, 1, 0, 0, 0, 0, time.UTC),
+				DNSNames: []string{ServerName, AltName}, KeyUsage: stdx509.KeyUsageDigitalSignature, ExtKeyUsage: []stdx509.ExtKeyUsage{stdx509.ExtKeyUsageServerAuth}}
+			sder, err := stdx509.CreateCertificate(rand.Reader, st2, sub, &p.ECDSAKey.PublicKey, subKey)
+			if err != nil {
+				panic(err)
+			}
+			p.ECDSASub = mk(sder, p.ECDSAKey)
+			p.ECDSASub.Certificate = append(p.ECDSASub.Certificate, subDER)
 			rk, _ := rsa.GenerateKey(rand.Reader, 2048)
 			p.StdClientRSA = mk(leaf(112, &rk.PublicKey, []stdx509.ExtKeyUsage{stdx509.ExtKeyUsageClientAuth}, stdx509.KeyUsageDigitalSignature), rk)
 		}
